@@ -14,6 +14,18 @@ CHECKS = {
     "C16": dict(text="every swizzle getter and with_ setter name found in the tree is executed symbolically on all lane bit patterns (Vec3A with an arbitrary hidden lane) in the SSE2 and scalar builds; result lane i must equal the lane the i-th letter names, bit for bit",
                 design="4/C16", tech=E1),
 }
+CHECKS.update({
+    "C13": dict(text="every operator / method of the 27 integer vector types found in the tree is compared lane by lane with the Rust primitive for ALL lane values (8- to 64-bit alike, via the SMT back end for multiplicative ops); checked_* None-ness; and, per panicking operation, a must-not-panic harness under 'no lane's primitive would panic' plus a must-panic harness under its negation (overflow-checking profile)",
+                design="4/C13", tech=E1),
+    "C14": dict(text="every as_* method and every From/TryFrom impl between vector types, arrays, tuples, masks and (vector, scalar) pairs found by scanning the tree is executed on fully symbolic source lanes and compared bit for bit with the primitive `as` / From / TryFrom of each lane",
+                design="4/C14", tech=E1),
+    "C15": dict(text="all five mask types with symbolic lanes (SIMD masks additionally with both reachable hidden-lane states): readers, constructors, & | ^ !, ==, Hash through a recording Hasher, test/set with a symbolic index (must-panic when out of range), BVec3A/BVec4A vs BVec3/BVec4 observational equality; cmp* of every numeric vector type vs the primitive comparison; select bit for bit",
+                design="4/C15", tech=E1),
+    "C17": dict(text="constructor x reader matrix on symbolic lanes for each vector type, Quat and DQuat, named constants, and a one-step write lemma from an arbitrary pre-state through every mutable path at a symbolic lane index, observed through every read path (inductive step for write histories of any length); Debug/Display text is not decided",
+                design="4/C17", tech=E1),
+    "C06": dict(text="for all 11 matrix/affine types: every accessor and constructor agrees on the column-major position of entry (r,c) bit for bit, from_diagonal, transpose, col_mut aliasing, minor constructors for every valid (i,j) and must-panic for invalid ones, with arbitrary hidden lanes in Mat3A/Affine3A columns; product laws are decided by E2 where built",
+                design="4/C06", tech=E1),
+})
 NA = {}
 
 
